@@ -153,9 +153,27 @@ def attr_fps(obj):
     return out
 
 
+def _param_value(v, depth=0):
+    """Parameter values are compared by value; estimator-valued parameters by
+    type and by their own parameters (their fitted state is not a parameter)."""
+    if hasattr(v, "get_params") and not isinstance(v, type):
+        try:
+            return ("estimator", type(v).__qualname__, tuple(sorted((k, _param_value(x, depth + 1)) for k, x in v.get_params(deep=False).items()))
+                    if depth < 4 else ())
+        except Exception:
+            return ("estimator", type(v).__qualname__)
+    if isinstance(v, (list, tuple)) and any(hasattr(x, "get_params") or isinstance(x, (list, tuple)) for x in v):
+        return (type(v).__name__,) + tuple(_param_value(x, depth + 1) for x in v)
+    return canon(v)
+
+
+def params_dict_fp(est):
+    return {k: digest(_param_value(v)) for k, v in est.get_params(deep=True).items()}
+
+
 def params_fp(est):
     """Fingerprint of get_params(deep=True) including dict contents."""
-    return digest(canon(est.get_params(deep=True)))
+    return digest(tuple(sorted(params_dict_fp(est).items())))
 
 
 def short(x, n=8):
